@@ -82,3 +82,40 @@ func (c *FnCtx) assumeRefs(v Term, t types.Type, st *State) {
 		c.define(f)
 	}
 }
+
+// liteRangeFacts: type facts of a value without the 64-bit signed bounds (which are rarely needed and
+// derail quantifier instantiation): unsigned values are >= 0, small integers are in range, slice
+// headers are well formed.
+func (g *Gen) liteRangeFacts(v Term, t types.Type, depth int) []Term {
+	t = types.Unalias(t)
+	var out []Term
+	if lo, hi, ok := intRange(t); ok {
+		if isUnsigned(t) {
+			out = append(out, le(tZero, v))
+			if bitWidth(t) < 64 {
+				out = append(out, le(v, bigLit(hi)))
+			} else {
+				out = append(out, le(v, bigLit(hi)))
+			}
+		} else if bitWidth(t) < 64 {
+			out = append(out, le(bigLit(lo), v), le(v, bigLit(hi)))
+		}
+		return out
+	}
+	switch tt := t.Underlying().(type) {
+	case *types.Slice:
+		out = append(out, le(tZero, sLen(v)), le(sLen(v), sCap(v)), le(tZero, sOff(v)))
+	case *types.Struct:
+		if depth <= 0 || v.Sort == SInt {
+			return out
+		}
+		info := g.u.structInfoOf(v.Sort)
+		if info == nil {
+			return out
+		}
+		for i := 0; i < tt.NumFields() && i < len(info.fields); i++ {
+			out = append(out, g.liteRangeFacts(g.u.field(v, i), tt.Field(i).Type(), depth-1)...)
+		}
+	}
+	return out
+}
